@@ -10,7 +10,6 @@
  * set) or closed exactly once; nothing else is closed; on truncation everything
  * is closed, the call fails and reports zero descriptors; the byte buffer is
  * lengthened by exactly the bytes read.   NFD = caller's capacity (shape). */
-#define _GNU_SOURCE
 #include <config.h>
 #include <dbus/dbus-internals.h>
 #include <dbus/dbus-string.h>
@@ -23,53 +22,81 @@
 #include <errno.h>
 #include <string.h>
 #include "vf.h"
+/* glibc defines CMSG_DATA(c) as the flexible array member (c)->__cmsg_data; CBMC models a flexible member inside a
+ * byte buffer as zero-sized (reads through it did not see the bytes written).  Use the equivalent pointer form, for the
+ * real translation unit as well, which is therefore #included here instead of being linked separately. */
+#undef CMSG_DATA
+#define CMSG_DATA(c) ((unsigned char *) (c) + sizeof (struct cmsghdr))
+#include "/repo/dbus/dbus-sysdeps-unix.c"
 #ifndef NFD
 #define NFD 2
 #endif
 #define FD_BASE 100
 #define MAXDELIV 6
 static int fd_open[MAXDELIV], fd_closed[MAXDELIV], fd_cloexec[MAXDELIV], n_delivered, bad_close, ctrunc, bytes_ret;
+static int vf_errno;
+int *__errno_location (void) { return &vf_errno; }
 int close (int fd)
 { if (fd >= FD_BASE && fd < FD_BASE + n_delivered) { fd_closed[fd - FD_BASE]++; fd_open[fd - FD_BASE] = 0; } else bad_close++; return 0; }
-void _dbus_fd_set_close_on_exec (int fd) { if (fd >= FD_BASE && fd < FD_BASE + n_delivered) fd_cloexec[fd - FD_BASE]++; else bad_close++; }
+#include <fcntl.h>
+#include <stdarg.h>
+/* CBMC 6.11's built-in memcpy model loses the copy when the length is not a constant (byte_update with a symbolic
+ * size left the destination unchanged in the trace; the native replay did not reproduce): byte loop instead. */
+void *memcpy (void *d, const void *s, size_t n)
+{ size_t k; for (k = 0; k < n; k++) ((unsigned char *) d)[k] = ((const unsigned char *) s)[k]; return d; }
+int fcntl (int fd, int cmd, ...)
+{
+  va_list ap; int arg;
+  if (!(fd >= FD_BASE && fd < FD_BASE + n_delivered)) { bad_close++; return -1; }
+  if (cmd == F_GETFD) return 0;
+  va_start (ap, cmd); arg = va_arg (ap, int); va_end (ap);
+  if (cmd == F_SETFD && (arg & FD_CLOEXEC)) fd_cloexec[fd - FD_BASE]++;
+  return 0;
+}
 struct cmsghdr *__cmsg_nxthdr (struct msghdr *m, struct cmsghdr *c)
 {
-  /* glibc's definition */
+  /* glibc's semantics, computed on offsets so that no out-of-bounds pointer is formed */
+  size_t off = (size_t) ((unsigned char *) c - (unsigned char *) m->msg_control), next;
   if ((size_t) c->cmsg_len < sizeof (struct cmsghdr)) return 0;
-  c = (struct cmsghdr *) ((unsigned char *) c + CMSG_ALIGN (c->cmsg_len));
-  if ((unsigned char *) (c + 1) > ((unsigned char *) m->msg_control + m->msg_controllen)
-      || ((unsigned char *) c + CMSG_ALIGN (c->cmsg_len) > ((unsigned char *) m->msg_control + m->msg_controllen)))
-    return 0;
-  return c;
+  next = off + CMSG_ALIGN (c->cmsg_len);
+  if (next + sizeof (struct cmsghdr) > m->msg_controllen) return 0;
+  { struct cmsghdr *n = (struct cmsghdr *) ((unsigned char *) m->msg_control + next);
+    if (next + CMSG_ALIGN (n->cmsg_len) > m->msg_controllen) return 0;
+    return n; }
 }
+/* The kernel's answer has a concrete layout per job (R4): KIND 0 = no control message, 1 = one control message that is
+ * not SCM_RIGHTS (symbolic level/type, PAY payload bytes), 2 = one SCM_RIGHTS message carrying PAY descriptors.
+ * (With msg_controllen = CMSG_LEN (NFD * 4) exactly, a second control message never fits.) */
+#ifndef KIND
+#define KIND 2
+#endif
+#ifndef PAY
+#define PAY NFD
+#endif
 ssize_t recvmsg (int fd, struct msghdr *m, int flags)
 {
-  size_t room = m->msg_controllen, used = 0; int k, ncm = vf_range (0, 2), have_rights = 0;
+  size_t room = m->msg_controllen, used = 0;
   unsigned char *ctl = m->msg_control;
   VF_ASSERT (flags & MSG_CMSG_CLOEXEC, "descriptors are requested close-on-exec");
   VF_ASSERT (room == CMSG_LEN (NFD * sizeof (int)), "the kernel is offered exactly the room for the caller's capacity (no padding that extra descriptors could hide in)");
-  if (bytes_ret < 0) { errno = vf_bool () ? EAGAIN : ECONNRESET; return -1; }
-  for (k = 0; k < ncm; k++)
-    {
-      struct cmsghdr *c = (struct cmsghdr *) (ctl + used);
-      size_t payload; int rights = vf_bool (), i;
-      if (used + sizeof (struct cmsghdr) > room) break;
-      payload = (size_t) vf_range (0, NFD * 4);
-      if (used + CMSG_LEN (payload) > room) break;                       /* contract: a control message lies inside the buffer offered */
-      if (rights && have_rights) rights = 0;                              /* assumption: at most one SCM_RIGHTS message per recvmsg */
-      c->cmsg_level = rights ? SOL_SOCKET : vf_int ();
-      c->cmsg_type = rights ? SCM_RIGHTS : vf_int ();
-      if (!rights) VF_ASSUME (!(c->cmsg_level == SOL_SOCKET && c->cmsg_type == SCM_RIGHTS));
-      if (rights) { VF_ASSUME (payload % 4 == 0); have_rights = 1; }
-      c->cmsg_len = CMSG_LEN (payload);
-      if (rights)
-        for (i = 0; i < (int) (payload / 4); i++)
-          { VF_ASSERT (n_delivered < MAXDELIV, "ghost table capacity"); ((int *) CMSG_DATA (c))[i] = FD_BASE + n_delivered; fd_open[n_delivered] = 1; n_delivered++; }
-      else
-        for (i = 0; i < (int) payload; i++) CMSG_DATA (c)[i] = vf_u8 ();
-      used += CMSG_ALIGN (CMSG_LEN (payload));
-      if (used > room) used = room;
-    }
+  if (bytes_ret < 0) { vf_errno = vf_bool () ? EAGAIN : ECONNRESET; return -1; }
+#if KIND == 1
+  {
+    struct cmsghdr *c = (struct cmsghdr *) ctl; int i;
+    c->cmsg_level = vf_int (); c->cmsg_type = vf_int ();
+    VF_ASSUME (!(c->cmsg_level == SOL_SOCKET && c->cmsg_type == SCM_RIGHTS));
+    c->cmsg_len = CMSG_LEN (PAY);
+    for (i = 0; i < PAY; i++) CMSG_DATA (c)[i] = vf_u8 ();
+    used = CMSG_ALIGN (CMSG_LEN (PAY)); if (used > room) used = room;
+  }
+#elif KIND == 2
+  {
+    struct cmsghdr *c = (struct cmsghdr *) ctl; int i;
+    c->cmsg_level = SOL_SOCKET; c->cmsg_type = SCM_RIGHTS; c->cmsg_len = CMSG_LEN (PAY * sizeof (int));
+    for (i = 0; i < PAY; i++) { ((int *) CMSG_DATA (c))[i] = FD_BASE + n_delivered; fd_open[n_delivered] = 1; n_delivered++; }
+    used = CMSG_ALIGN (CMSG_LEN (PAY * sizeof (int))); if (used > room) used = room;
+  }
+#endif
   m->msg_controllen = used;
   m->msg_flags = ctrunc ? MSG_CTRUNC : 0;
   return bytes_ret;
@@ -110,7 +137,7 @@ void harness (void)
             if (i < (int) n) VF_ASSERT (fds[i] == FD_BASE + i && fd_open[i] && fd_closed[i] == 0 && fd_cloexec[i] >= 1, "delivered descriptors reach the caller in order, open, close-on-exec");
             else VF_ASSERT (fd_closed[i] == 1, "descriptors beyond the caller's capacity are closed exactly once");
           }
-#if NFD > 0
+#if NFD > 0 && KIND == 2 && PAY == NFD
       if (n == NFD) VF_WITNESS ("the caller's capacity is filled");
 #endif
     }
